@@ -29,7 +29,8 @@ DocTyps == Typs \ {"dict", "Opt_dict"}
 DocParams == ParamsOver(DocTyps, Defs, {"plain", "dot"})
 SmallParams == ParamsOver({"int", "str", "Opt_int", "absent"}, {"absent", "None", "int_pos", "str"}, {"plain"})
 RetTyps == {"int", "Opt_str", "Dotted"}
-Rets == {NoRet} \cup [typ : RetTyps, def : {"absent"}, doc : {"plain"}]
+\* (a return entry may be typed without being described: doc "absent")
+Rets == {NoRet} \cup [typ : RetTyps, def : {"absent"}, doc : {"plain"}] \cup {[typ |-> "int", def |-> "absent", doc |-> "absent"]}
 ParamSeqs == {<<>>} \cup {<<p>> : p \in DocParams}
              \cup (IF MaxParams >= 2
                    THEN {<<p, r>> : p \in DocParams, r \in (IF Reduced THEN SmallParams ELSE DocParams)}
